@@ -142,16 +142,17 @@ def main():
       '   own scratch worktree (nothing from `/verif`) and wrote two changes that break the property, still compile and\n'
       '   pass the pinned suite, with a demonstration test. I confirmed each one myself (`tools/verify_seed.sh`: demo\n'
       '   passes on the pristine tree, fails with the patch, pinned suite of the touched module passes with the patch)\n'
-      '   and kept it as `seeded/<id>-<k>/` (patch.diff, demonstration, DEMO.md, meta.json). Three rounds of two changes\n'
+      '   and kept it as `seeded/<id>-<k>/` (patch.diff, demonstration, DEMO.md, meta.json). Several rounds of two changes\n'
       '   per property (every later round was told what the earlier ones had produced and asked for something\n'
       '   different: another mechanism, code site or trigger): rounds 1 and 2 for all 20 properties, round 3 for the 14\n'
-      '   behavioural properties of the priority / join / limit disciplines and the rest (C04 C10 C13 C14 C18 C20) in a\n'
-      '   final round: %d changes. **Caught by the owning check at the first try: round 1: 32 of 40; round 2: 28 of 40;\n'
-      '   round 3: 19 of 28; last round: 10 of 12.** Each miss showed a real weakness - a workload that was too\n'
+      '   behavioural properties of the priority / join / limit disciplines, round 4 for the rest (C04 C10 C13 C14 C18\n'
+      '   C20), round 5 for the 12 properties with the most misses so far: %d changes. **Caught by the owning check at\n'
+      '   the first try: round 1: 32 of 40; round 2: 28 of 40; round 3: 19 of 28; round 4: 10 of 12; round 5: 17 of\n'
+      '   24.** Each miss showed a real weakness - a workload that was too\n'
       '   narrow (unusual configurations above all), an oracle that was sound but too weak, an observation taken too\n'
       '   late, or instrumentation that synchronised what it was supposed to watch - and was closed by strengthening\n'
-      '   the monitor, never by special-casing the change. After that all are caught by the owning check, with two\n'
-      '   deliberate exceptions (C19-3 and C05-5, see the table and the notes in their `meta.json`):\n' % len(glob.glob(os.path.join(V, 'seeded', '*', ''))))
+      '   the monitor, never by special-casing the change. After that all are caught by the owning check (the table is\n'
+      '   regenerated from the last full re-run):\n' % len(glob.glob(os.path.join(V, 'seeded', '*', ''))))
     w('   | change | what it does / what it needs | caught by | first try |')
     w('   |---|---|---|---|')
     for d in sorted(glob.glob(os.path.join(V, 'seeded', '*', ''))):
@@ -184,10 +185,16 @@ def main():
       '   as a (finite) refutation of eventual delivery; C07-5 -> a spin of the harness itself; C07-6 -> idle periods\n'
       '   much longer than the progress window before the last close / before a progress probe; C16-5 -> the\n'
       '   Handle-running observation is taken at the return of every one of several overlapping Stop() calls; C19-5 ->\n'
-      '   runs that never read Err() after a divider fault; C05-5 -> not caught, and not catchable soundly (section 5,\n'
-      '   C05). Last round: C20-5 / C20-6 -> the race detector had been blinded by the monitors themselves (mutex of\n'
-      '   the divider monitor, atomics inside Handle): the uninstrumented `bare-priority` family. `meta.json` of each\n'
-      '   change records what was run and seen.\n')
+      '   runs that never read Err() after a divider fault; C05-5 -> thought out of reach at first, caught since round 5 (parked\n'
+      '   writers). Round 4: C20-5 / C20-6 -> the race detector had been blinded by the monitors themselves (mutex of\n'
+      '   the divider monitor, atomics inside Handle): the uninstrumented `bare-priority` family. Round 5: C05-7 ->\n'
+      '   saturation of small buffers made a fact by parked senders, on both clocks (section 5, C05); C05-8 -> AddInput with\n'
+      '   the channel that is already registered; C07-8 -> v1 configurations without share in termination scenarios;\n'
+      '   C08-7 -> Stop() from another goroutine while the consumer keeps reading; C16-7 -> Stop / cancel right after\n'
+      '   the constructor, without waiting for quiescence; C17-8 -> removal of the last registered input, and\n'
+      '   non-termination after control calls reported under C17; C19-8 -> census right at the completion of a stop and\n'
+      '   a Handle that needs 3us to return (this also closed the old exception C19-3). `meta.json` of each change\n'
+      '   records what was run and seen.\n')
     if seeded:
         bad = [(n, c, v) for n, l in seeded.items() for c, v in l if v != 'CAUGHT']
         w('   Re-run of all of them after the last strengthening (`tools/mutant_matrix.sh`, quick tier): %d (change, check)\n'
